@@ -70,6 +70,11 @@ func fmtCfg(r *Rng) GenCfg {
 	if r.Chance(1, 4) {
 		cfg.Nums = nastyNums
 	}
+	if r.Chance(1, 5) {
+		d := DeepCfg()
+		d.Keys, d.Strs = cfg.Keys, cfg.Strs
+		return d
+	}
 	return cfg
 }
 
@@ -126,6 +131,21 @@ func addC09Case(run *Run, a, b *Val, ts []*Val) {
 		Probe{Kind: "corr", Rel: "RenderPatch = renderPatchM", Line: fmt.Sprintf("renderpatch %s %s", nd, dw), Want: want},
 		Probe{Kind: "oracle", Rel: "C09 RFC 6902 evaluation of the rendered patch: on a gives b; same result wherever the native diff applies; inexpressible paths refused", Line: fmt.Sprintf("c09 %s %s %s %s %s %d %s", nd, aw, bw, dw, txt, len(tl), strings.Join(tl, " "))},
 	)
+	// realistic reuse: render, then patch with the SAME diff value
+	reuse := "ok"
+	safely(func() string {
+		an, bn := mustNode(aw), mustNode(bw)
+		d := an.Diff(bn)
+		_, _ = d.RenderPatch()
+		r, err := mustNode(aw).Patch(d)
+		if err != nil {
+			reuse = "fail after RenderPatch the same diff value no longer applies to a: " + err.Error()
+		} else if !r.Equals(bn) {
+			reuse = "fail after RenderPatch the same diff value no longer turns a into b"
+		}
+		return ""
+	})
+	c.Probes = append(c.Probes, Probe{Kind: "direct", Rel: "C09 the diff still means the same after it was rendered as JSON Patch", Want: reuse})
 	run.Count("render:" + strings.Fields(txt)[0])
 	run.Count(fmt.Sprintf("targets_applied:%d", applied))
 	run.Add(c)
